@@ -14,9 +14,19 @@
 -/
 namespace C10.Flow
 
-/-- the kinds of storage failure the property quantifies over -/
-inductive EKind | plain | deadline | oidc
+/-- the kinds of storage failure the property quantifies over: `plain` (an error matching no sentinel), `deadline` /
+    `canceled` (context.DeadlineExceeded / context.Canceled, bare or wrapped), `oidc` (an *oidc.Error returned BY the storage),
+    `status` (an op.StatusError), `named s` (an error that IS or wraps the sentinel `s` - ErrDuplicateUserCode,
+    ErrSignerCreationFailed, … - for a sentinel that is not one of the audited benign ones) -/
+inductive EKind | plain | deadline | oidc | canceled | status | named (s : String)
   deriving DecidableEq, Repr, Inhabited
+
+/-- `errors.Is(err, s)` where it is determined by the kind alone (a named kind certainly matches its own sentinel) -/
+def EKind.matchesOwn (k : EKind) (s : String) : Bool :=
+  match k with
+  | .canceled => s == "context.Canceled"
+  | .named n => n == s
+  | _ => false
 
 /-- class of a value in an error position (an `ok` flag counts as an error value with the polarity reversed):
     `nil`; `hard k`: a non-nil error that matches none of the audited benign sentinels; `sent`: an error that does -/
@@ -120,7 +130,9 @@ def Ev.isCall : Ev → Bool | .sfail .. => true | .sok .. => true | _ => false
 /-- `errors.Is(x, s)` / `errors.As`: `some b` when determined by the class of x -/
 def isMatch (benign : List String) (s : String) : CV → Option Bool
   | .nil => some false
-  | .hard k => if benign.contains s then some false else if s == "context.DeadlineExceeded" then some (k == .deadline) else none
+  | .hard k =>
+    if benign.contains s then some false else if s == "context.DeadlineExceeded" then some (k == .deadline)
+    else if k.matchesOwn s then some true else none
   | .sent => none
 
 /-- the value a `return` yields -/
